@@ -116,6 +116,23 @@ class Script:
                 kw['init_state'] = op['init_state']
             if 'init_state_from' in op:
                 kw['init_state'] = self.obj(op['init_state_from']).user_state
+            if op.get('pipe') == 'slow-marker':
+                # a caller-supplied results channel whose consumer is slow exactly when the end-of-stream marker arrives:
+                # a parent-side delay point for the thread that forwards results
+                from pyworkers.utils import LocalPipe, Queue as _Q
+
+                class SlowQ(_Q):
+                    def put(self, item, *a, **k):
+                        if isinstance(item, tuple) and len(item) == 4 and item[1] is False:
+                            time.sleep(op.get('marker_delay', 1.2))
+                        return super().put(item, *a, **k)
+
+                class SlowPipe(LocalPipe):
+                    def __init__(self):
+                        self._q = SlowQ()
+                p = SlowPipe()
+                self.pipes[op['var']] = p
+                kw['results_pipe'] = p
             if op.get('pipe') == 'supplied':
                 from pyworkers.utils import Pipe
                 p = Pipe()
@@ -195,6 +212,49 @@ class Script:
                     break
                 out.append(_rep(r))
             return {'ret': out, 'end': end}
+        if o == 'restart':
+            w = self.obj(op['var'])
+            kw = dict(op.get('kwargs', {}))
+            if kw.get('results_pipe') == '<new-pipe>':
+                from pyworkers.utils import Pipe
+                p = Pipe()
+                self.oldpipes = getattr(self, 'oldpipes', {})
+                self.oldpipes.setdefault(op['var'], []).append(self.pipes.get(op['var']))
+                self.pipes[op['var']] = p
+                kw['results_pipe'] = p
+            self.old_pids = getattr(self, 'old_pids', {})
+            self.old_pids[op['var']] = _guard(lambda: w.pid)
+            return self.call(lambda: w.restart(**kw), op.get('timeout', 30))
+        if o == 'drain_old_pipes':
+            # a consumer of the previous incarnation's results pipe finally reads it (whatever was parked there gets going)
+            n = 0
+            for p in getattr(self, 'oldpipes', {}).get(op['var'], []):
+                if p is None:
+                    continue
+                ep = p.parent_end
+                dl = time.time() + op.get('timeout', 2)
+                while time.time() < dl:
+                    try:
+                        if ep.poll(0.05):
+                            ep.recv()
+                            n += 1
+                    except (EOFError, OSError):
+                        break
+            return {'ret': n}
+        if o == 'old_child_dead':
+            pid = getattr(self, 'old_pids', {}).get(op['var'])
+            if op.get('kind') in ('T', 'PT') or not isinstance(pid, int):
+                return {'ret': True}
+            dl = time.time() + 2
+            while time.time() < dl and not pid_gone(pid):
+                time.sleep(0.01)
+            return {'ret': pid_gone(pid), 'pid': pid}
+        if o == 'read_file':
+            try:
+                with open(op['path']) as f:
+                    return {'ret': f.read()}
+            except FileNotFoundError:
+                return {'ret': None}
         if o == 'poll_dead':
             w = self.obj(op['var'])
             dl = time.time() + op.get('timeout', 5)
